@@ -1,0 +1,48 @@
+//go:build verif
+
+// Contracts for package keyvalue, read by the verification-condition generator
+// in /verif (govc). Comments only; compiled only with the build tag "verif".
+
+package keyvalue
+
+// Key-value persister (C10, C11): which keys each persister call writes. Every call collects its writes in one batch and
+// applies it once (ChannelCreated/ChannelRemoved: one batch for the channel table and one for the peer index); PhaseChanged
+// writes its single key directly.
+//
+// sigKeyStr(i, n): the key of signature slot i of a channel with n participants. sigKeys and sigKey format it with fmt.Sprintf
+// (zero padded to the width of n): string formatting is outside the verified subset, both are trusted to produce this key.
+//@ ghost func sigKeyStr(i int, n int) string
+//@ func sigKeys
+//@   trusted
+//@   requires numParts >= 0
+//@   ensures len(result) == numParts && fresh(arr(result)) && off(result) == 0 && forall i int :: 0 <= i && i < numParts ==> result[i] == sigKeyStr(i, numParts)
+//@ func sigKey
+//@   trusted
+//@   ensures result == sigKeyStr(idx, numParts)
+
+// dbPutSource writes the named fields of the source into the writer (encoders abstracted).
+//@ func dbPutSource
+//@   trusted
+//@   requires db != nil && s != nil
+
+// allSigKeys(keys, from, n): keys[from..from+n) are the n signature slot keys in order.
+//@ pred allSigKeys(keys []string, from int, n int) = forall i int :: 0 <= i && i < n ==> keys[from + i] == sigKeyStr(i, n)
+
+// Staged: phase, staged state and every staged signature slot (a new staged state starts with empty slots: the slots of the
+// previous staged state must not survive in the store).
+//@ func (*PersistRestorer).Staged
+//@   requires pr != nil && s != nil
+//@   modifies *
+//@   callsite dbPutSource : s == old(s) && len(keys) == 2 + len(srcParams(s).Parts) &&
+//@     ((keys[0] == "staging:state" && keys[1] == "phase") || (keys[0] == "phase" && keys[1] == "staging:state")) && allSigKeys(keys, 2, len(srcParams(s).Parts))
+
+//@ func (*PersistRestorer).SigAdded
+//@   requires pr != nil && s != nil
+//@   modifies *
+//@   callsite dbPutSource : s == old(s) && len(keys) == 1 && keys[0] == sigKeyStr(idx, len(srcParams(s).Parts))
+
+//@ func (*PersistRestorer).Enabled
+//@   requires pr != nil && s != nil
+//@   modifies *
+//@   callsite dbPutSource : s == old(s) && len(keys) == 3 + len(srcParams(s).Parts) && keys[0] == "staging:state" && keys[1] == "current" && keys[2] == "phase" &&
+//@     allSigKeys(keys, 3, len(srcParams(s).Parts))
